@@ -353,7 +353,12 @@ func (m *Machine) doCall(f *frame, x *ssa.Call, depth int) Value {
 		}
 		return m.call(fn, args, free, depth+1)
 	}
-	fv := m.get(f, cc.Value).(FuncV)
+	fv, isFn := m.get(f, cc.Value).(FuncV)
+	if !isFn || fv.fn == nil {
+		// a function value the encoding does not know (e.g. a package-level func variable initialised by init(), which is not executed)
+		m.oblige(m.cbool(false), "call of a nil / unknown function value", m.prog.Fset.Position(x.Pos()).String())
+		m.fail("nil func")
+	}
 	return m.call(fv.fn, args, fv.free, depth+1)
 }
 
